@@ -384,10 +384,10 @@ theorem hdrScan_inv (buf : List Byte) (off : Nat) (s : HdrScan) (hi : HInv buf o
     · cases hm
   case case8 off s c hc dflt h1 h2 hcc rest hm hg ih =>
     apply ih _ h0
-    refine ⟨?_, hi.ct⟩
+    refine ⟨?_, Or.inl rfl⟩
     rcases hi.ce with h | h
     · exact Or.inl h
-    · exact Or.inr ⟨h.1, reach_dflt buf off _ c h.2 hc h1 h2⟩
+    · exact Or.inr ⟨h.1, reach_dflt buf off (s.ceS + s.ceL) c h.2 hc h1 h2⟩
   case case9 off s c hc h1 h2 hcc rest hm n hg hn0 hn2 =>
     exfalso
     split at hm
@@ -428,10 +428,7 @@ theorem hdrScan_inv (buf : List Byte) (off : Nat) (s : HdrScan) (hi : HInv buf o
     · cases hm
   case case13 off s c hc dflt h1 h2 hcc rest hm0 hm hg ih =>
     apply ih _ h0
-    refine ⟨?_, hi.ct⟩
-    rcases hi.ce with h | h
-    · exact Or.inl h
-    · exact Or.inr ⟨h.1, reach_dflt buf off _ c h.2 hc h1 h2⟩
+    exact ⟨Or.inl rfl, hi.ct⟩
   case case14 off s c hc h1 h2 hcc rest hm0 hm n hg hn0 hn2 =>
     exfalso
     split at hm
